@@ -469,12 +469,20 @@ func Run(sc *Scenario, worlds []*world.World, deadline time.Time, seedNum int64)
 					n = r.buildSeed(w, it.seed, scratch, false)
 					seedCache[it.seed] = n
 				}
+				broken := false
 				for _, op := range it.path {
 					next, _ := r.step(w, n, op, it.seed, scratch, false)
 					if next == nil {
-						panic("HARNESS-NONDETERMINISM: work item path not reproducible on a second world: " + traceString(it.seed, it.path))
+						// a transition that expanded on world 0 is rejected (or fails) on this one: the same history does not give
+						// the same result on two separately constructed Apps
+						r.record(Failure{Oracle: "cross-world", Cause: "path-not-reproducible", Msg: "a history that ran on one App is rejected on a second, separately constructed App: " + traceString(it.seed, it.path)}, it.seed, it.path)
+						broken = true
+						break
 					}
 					n = next
+				}
+				if broken {
+					continue
 				}
 				// the same history replayed on a separately constructed world must reach the byte-identical state
 				cnt.Inc("cross_world.states_compared")
